@@ -94,7 +94,7 @@ PROPS = {
                 thorough=[R(checks=2500, shards=16, env={"VERIF_JOURNAL": "1"}, timeout=2400), R(test="TestDevMgr", checks=2, shards=4, env={"VERIF_JOURNAL": "1"}, timeout=600)]),
     "C20": dict(pkg="c20", level="exploration",
                 quick=[R(checks=12000, timeout=900)],
-                thorough=[R(checks=40000, shards=16, timeout=2400), F("FuzzPath", 120), F("FuzzJSONIntent", 150), F("FuzzXML", 120)]),
+                thorough=[R(checks=40000, shards=16, timeout=2400), F("FuzzPath", 120), F("FuzzJSONIntent", 150), F("FuzzXML", 120), F("FuzzDeviceNotification", 150)]),
 }
 
 ASSUMPTIONS = {
